@@ -10,3 +10,4 @@ NOT_DECIDED = ["textual equality of each iterated frame with format(image, spec)
                "URL-sourced images: temporary file lifetime (unit not online yet)"]
 
 from .C04 import u_renderer_frame  # noqa: F401,E402  (size setting restored by _renderer on every exit)
+from .old_draw import *   # noqa: F401,E402  old-API draw / _display_animated
